@@ -673,3 +673,46 @@ func findKey(n *Node, k string) ([]byte, bool) {
 	}
 	return nil, false
 }
+
+// ConcCompact renders a concurrent case on one line for evidence samples.
+func ConcCompact(p *Program) string {
+	var x ConcExtra
+	if err := json.Unmarshal(p.Extra, &x); err != nil {
+		return p.Cfg.String()
+	}
+	var sb strings.Builder
+	sb.WriteString(p.Cfg.String())
+	fmt.Fprintf(&sb, " :: %d writers", len(x.Writers))
+	for w, bs := range x.Writers {
+		fmt.Fprintf(&sb, "; w%d: %d batches", w, len(bs))
+		if len(bs) > 0 {
+			fmt.Fprintf(&sb, " e.g. %s", bs[0].String())
+			if len(bs) > 1 {
+				fmt.Fprintf(&sb, " .. %s", bs[len(bs)-1].String())
+			}
+		}
+	}
+	fmt.Fprintf(&sb, "; %d snapshot readers", x.Readers)
+	if x.GetReader {
+		sb.WriteString(", Get reader")
+	}
+	if x.Pollers {
+		sb.WriteString(", stats/iterator pollers")
+	}
+	if x.Notifiers > 0 {
+		fmt.Fprintf(&sb, ", %d sync notifiers", x.Notifiers)
+	}
+	if x.CloseAfter > 0 {
+		fmt.Fprintf(&sb, "; Close after %d batches returned", x.CloseAfter)
+	}
+	if len(x.Perturb) > 0 {
+		fmt.Fprintf(&sb, "; perturb(us)=%v", x.Perturb)
+	}
+	if x.Procs > 0 {
+		fmt.Fprintf(&sb, "; GOMAXPROCS=%d", x.Procs)
+	}
+	if x.LLSlowUs > 0 || len(x.LLFail) > 0 || x.LLStallMs > 0 {
+		fmt.Fprintf(&sb, "; lower level: slow=%dus fail=%v stall=%dms", x.LLSlowUs, x.LLFail, x.LLStallMs)
+	}
+	return clip(sb.String(), 1400)
+}
